@@ -412,6 +412,24 @@ class Model:
             bb = self.b(e[2], env, st2)
             st.absorb(st2)
             return ("bool", AND(a, bb))
+        if t == "eq":
+            a = self.ev(e[1], env, st)
+            b = self.ev(e[2], env, st)
+            if a[0] == "const" and b[0] == "view":
+                a, b = b, a
+            if a[0] == "view" and b[0] == "const":
+                return ("bool", a[1].equals_const(b[1]))
+            if a[0] == "const" and b[0] == "const":
+                return ("bool", "true" if a[1] == b[1] else "false")
+            if a[0] == "int" and b[0] == "int":
+                return ("bool", S("=", a[1], b[1]))
+            raise Inconclusive(f"comparison of {a[0]} with {b[0]} not modelled")
+        if t == "cmp":
+            a = self.ev(e[2], env, st)
+            b = self.ev(e[3], env, st)
+            if a[0] == "int" and b[0] == "int":
+                return ("bool", S(e[1], a[1], b[1]))
+            raise Inconclusive("ordering comparison on non-integers not modelled")
         if t == "index_from" or t == "index_to":
             v = self.ev(e[1], env, st)
             if v[0] != "view":
@@ -451,6 +469,9 @@ class Model:
             v = rv[1]
             if name == "is_empty" and not av:
                 return ("bool", v.is_empty())
+            if name == "len" and not av:
+                # byte length: sum of utf8 lengths is not modelled for symbolic-length views
+                raise Inconclusive("str::len (byte length) not modelled")
             if name == "is_char_boundary" and len(av) == 1 and av[0][0] == "int":
                 ok, _ = v.slice_from_byte(av[0][1])
                 return ("bool", ok)
